@@ -201,21 +201,16 @@ def dash (ops : List String) : String :=
   match ops.mapM dashOp? with
   | none => "bad-op"
   | some ops =>
-    -- an op that leaves a parent cycle in a folder structure never returns in the Go code (`buildFolderPath`
-    -- spins): the line's answer is then the single token "hang"
-    let rec go (st : Dash.St) (ops : List Dash.Op) (acc : List String) : Option (List String) :=
+    let rec go (st : Dash.St) (ops : List Dash.Op) (acc : List String) : List String :=
       match ops with
-      | [] => some acc.reverse
+      | [] => acc.reverse
       | op :: r =>
         let (st1, o) := Dash.step st op
-        if (match op.tenant with | some t => Dash.hasCycle (st1.fs t) | none => false) then none else
         -- the harness reads every tenant back after every op (listItems → getDashboard of every item,
         -- which refreshes stale folder metadata): part of the protocol, mirrored here
         let st2 := [0, 1, 2].foldl (fun s t => (Dash.step s (.list t)).1) st1
         go st2 r (dashTok o :: acc)
-    match go Dash.init ops [] with
-    | some toks => String.intercalate " " toks
-    | none => "hang"
+    String.intercalate " " (go Dash.init ops [])
 
 /-! ### contact (contact points):  c<t>.<name>=<v>   u<t>.<id>=<name>:<v>   d<t>.<id>   l<t>   R
      v = hex of a comma-separated list: pager = v, slack = its non-empty parts -/
@@ -318,6 +313,66 @@ def lookup (ops : List String) : String :=
       | op :: r => let (st1, o) := Lookup.step st op; go st1 r (lookupTok o :: acc)
     String.intercalate " " (go Lookup.init ops [])
 
+/-! ### adb (alert definitions):  p<t>.<name>   c<t>.<name>=<msg>@<cid>   u<t>.<id>=<name>:<msg>[@<cid>]
+     d<t>.<id>   g<t>.<id>   l<t>   R -/
+def adbOp? (s : String) : Option AlertDB.Op :=
+  if s = "R" then some .restart else
+  match s.toList with
+  | 'l' :: c :: [] => (tenant? c).map .list
+  | o :: r =>
+    match splitTenant (String.ofList r) with
+    | none => none
+    | some (t, rest) =>
+      if o = 'p' then (key? rest).map (.contact t)
+      else if o = 'c' then
+        match splitAt? rest with
+        | some (body, some cid) => match split1 body '=' with
+          | some (k, v) => match key? k, isHexLower v with
+            | some k, true => if cid = 0 then none else some (.create t k v cid)
+            | _, _ => none
+          | none => none
+        | _ => none
+      else if o = 'u' then
+        match splitAt? rest with
+        | some (body, cid) => match split1 body '=' with
+          | some (id, nv) => match dec? id, split1 nv ':' with
+            | some id, some (k, v) => match key? k, isHexLower v with
+              | some k, true => if id = 0 || cid = some 0 then none else some (.update t id k v cid)
+              | _, _ => none
+            | _, _ => none
+          | none => none
+        | none => none
+      else
+        match dec? rest with
+        | none => none
+        | some id =>
+          if id = 0 then none
+          else if o = 'd' then some (.delete t id)
+          else if o = 'g' then some (.get t id)
+          else none
+  | [] => none
+
+def adbRow (id : Nat) (r : AlertDB.Row) : String :=
+  s!"{id}/{showKey r.name}/{r.msg}/{r.cid}/{showKey r.cname}"
+
+def adbTok : AlertDB.Out → String
+  | .res r => showRes r
+  | .created id => s!"ok:{id}"
+  | .alert id r => adbRow id r
+  | .noAlert => "-"
+  | .rows l => "[" ++ String.intercalate "," (sortStrs (l.map (fun e => adbRow e.1 e.2))) ++ "]"
+  | .restarted => "R"
+
+def adb (ops : List String) : String :=
+  match ops.mapM adbOp? with
+  | none => "bad-op"
+  | some ops =>
+    let rec go (st : AlertDB.St) (ops : List AlertDB.Op) (acc : List String) : List String :=
+      match ops with
+      | [] => acc.reverse
+      | op :: r => let (st1, o) := AlertDB.step st op; go st1 r (adbTok o :: acc)
+    String.intercalate " " (go AlertDB.init ops [])
+
 def handle (cmd : String) (args : List String) : Option String :=
   match cmd, args with
   | "kv", store :: ops =>
@@ -328,6 +383,7 @@ def handle (cmd : String) (args : List String) : Option String :=
     | "dash" => some (dash ops)
     | "contact" => some (contact ops)
     | "lookup" => some (lookup ops)
+    | "adb" => some (adb ops)
     | _ => some "bad-op"
   | "kv", [] => some "bad-op"
   | _, _ => none
